@@ -901,9 +901,22 @@ func (w *world) genLayouts() string {
 			fmt.Fprintf(&b, "def read%s : List Tok := %s\n", r.rec, leanFlds(rl, lensR))
 		}
 	}
-	// dispatcher table of readControlMessage: case constant -> reader called
-	b.WriteString("\n/-- readControlMessage: (case tag, reader function called, tag returned) -/\n")
-	b.WriteString("def dispatch : List (Nat × String × Nat) := [")
+	// dispatcher table of readControlMessage: (case constant, tag written by the write* twin of the reader
+	// called in that case, tag returned)
+	tagOfReader := map[string]string{}
+	for _, r := range recordFns {
+		if wl, ok := w.layoutOf(tr, r.wr); ok {
+			for _, f := range wl {
+				if f.Kind == "tag" {
+					key := r.rd
+					tagOfReader[key] = f.Val
+					break
+				}
+			}
+		}
+	}
+	b.WriteString("\n/-- readControlMessage: (case tag, tag emitted by the writer paired with the reader called, tag returned) -/\n")
+	b.WriteString("def dispatch : List (Nat × Nat × Nat) := [")
 	p := w.pkgs[tr]
 	var rows []string
 	for _, f := range p.Syntax {
@@ -939,7 +952,11 @@ func (w *world) genLayouts() string {
 						return true
 					})
 				}
-				rows = append(rows, fmt.Sprintf("(%d, %q, %d)", tag, reader, ret))
+				wt, okw := tagOfReader[reader]
+				if !okw {
+					wt = "999"
+				}
+				rows = append(rows, fmt.Sprintf("(%d, %s, %d)", tag, wt, ret))
 				return true
 			})
 		}
